@@ -84,7 +84,7 @@ pub fn texts<R>(f: impl FnOnce(&Texts) -> R) -> R {
 pub fn install_panic_hook() {
     let prev = std::panic::take_hook();
     std::panic::set_hook(Box::new(move |info| {
-        let quiet = EXPECT_PANIC.with(|e| *e.borrow() > 0);
+        let quiet = EXPECT_PANIC.with(|e| *e.borrow() > 0) && std::env::var_os("LSVERIF_TRACE").is_none();
         if !quiet {
             prev(info);
         }
